@@ -14,12 +14,17 @@
    "silenttoken" (Code V reader accepts a cut last token).                                                            *)
 EXTENDS Integers, Sequences, FiniteSets, TLC, Json
 
-CONSTANTS Shapes, Fmts, MaxInvalid, Variant, EmitOn
+CONSTANTS Shapes, Fmts, MaxInvalid, Variant, EmitOn,
+          Origins      \* who wrote the first-generation file: "prysm", or "instrument" (a Zygo file that carries an intensity block)
 
 VARIABLES fmt, shape, invalid, hdr, body, keep, partial, res, phase,
           dxv,   \* abstract id of the map's lateral spacing (1, 2, ...); the header carries it
-          gen    \* 1: first write of a fresh map; 2: the map that was read back, re-calibrated, and written again
-vars == <<fmt, shape, invalid, hdr, body, keep, partial, res, phase, dxv, gen>>
+          gen,   \* 1: first write of a fresh map; 2: the map that was read back, re-calibrated, and written again
+          origin,
+          hdrac, \* number of intensity samples the header DECLARES in front of the phase block
+          pre    \* number of intensity samples actually in the file
+vars == <<fmt, shape, invalid, hdr, body, keep, partial, res, phase, dxv, gen, origin, hdrac, pre>>
+IA == 12         \* size of an instrument's intensity frame (4 x 3 samples, one bucket)
 
 R == shape[1]
 C == shape[2]
@@ -42,12 +47,19 @@ Init == /\ fmt \in Fmts /\ shape \in Shapes
         /\ invalid \in {S \in SUBSET Cells : Cardinality(S) <= MaxInvalid}
         /\ hdr = <<0, 0, 0>> /\ body = << >> /\ keep = 0 /\ partial = FALSE
         /\ res = [k |-> "none"] /\ phase = "new" /\ dxv = 1 /\ gen = 1
+        /\ origin \in {o \in Origins : o = "prysm" \/ fmt = "zygo"} /\ hdrac = 0 /\ pre = 0
 
+\* the first-generation file of an instrument has its intensity frame between header and phase block and says so in the header;
+\* prysm's writer emits no intensity block and must declare none -- also when the map it writes was LOADED from an instrument file
+\* (variant "stale-ac": the loaded header's intensity descriptors are carried into the new header)
+ByInstrument == gen = 1 /\ origin = "instrument"
 Write == /\ phase = "new" /\ hdr' = WriteHdr /\ body' = WriteBody /\ keep' = N /\ phase' = "written"
-         /\ UNCHANGED <<fmt, shape, invalid, partial, res, dxv, gen>>
+         /\ pre' = (IF ByInstrument THEN IA ELSE 0)
+         /\ hdrac' = (IF ByInstrument THEN IA ELSE IF Variant = "stale-ac" THEN hdrac ELSE 0)
+         /\ UNCHANGED <<fmt, shape, invalid, partial, res, dxv, gen, origin>>
 
 Truncate(k, p) == /\ phase = "written" /\ k \in 0..(N - 1) /\ keep' = k /\ partial' = p /\ phase' = "cut"
-                  /\ UNCHANGED <<fmt, shape, invalid, hdr, body, res, dxv, gen>>
+                  /\ UNCHANGED <<fmt, shape, invalid, hdr, body, res, dxv, gen, origin, hdrac, pre>>
 
 \* what reading the (possibly cut) file yields in the specified design
 Missing == {p \in (1..RdRows) \X (1..RdCols) : Src(p[1], p[2]) > keep}
@@ -60,18 +72,19 @@ ReadOk(warn) ==
                     \/ (Src(p[1], p[2]) \in 1..keep /\ body[Src(p[1], p[2])].inv)}]
 Read ==
   /\ phase \in {"written", "cut"} /\ phase' = "read"
-  /\ res' = IF keep = N THEN ReadOk(FALSE)
+  /\ res' = IF hdrac # pre THEN [k |-> "misread"]                                   \* the phase block is not where the header says
+            ELSE IF keep = N THEN ReadOk(FALSE)
             ELSE IF fmt = "zygo" THEN ReadOk(TRUE)                                     \* pads, warns, marks the tail invalid
             ELSE IF Variant = "silenttoken" /\ keep = N - 1 /\ partial THEN
                      [ReadOk(FALSE) EXCEPT !.invalid = {p \in @ : Src(p[1], p[2]) <= keep}]   \* cut token parsed as a number
             ELSE [k |-> "exc"]                                                         \* too few tokens / cut token: rejected
-  /\ UNCHANGED <<fmt, shape, invalid, hdr, body, keep, partial, dxv, gen>>
+  /\ UNCHANGED <<fmt, shape, invalid, hdr, body, keep, partial, dxv, gen, origin, hdrac, pre>>
 
 \* the map that was read back is re-calibrated to a new spacing and saved again (a history, not a fresh object)
 Recal == /\ phase = "read" /\ keep = N /\ gen = 1 /\ res.k = "ok"
          /\ shape' = res.shape /\ invalid' = res.invalid /\ dxv' = 2 /\ gen' = 2
          /\ phase' = "new" /\ res' = [k |-> "none"] /\ partial' = FALSE
-         /\ UNCHANGED <<fmt, hdr, body, keep>>
+         /\ UNCHANGED <<fmt, hdr, body, keep, origin, hdrac, pre>>
 DoTruncate == \E k \in 0..(N - 1), p \in BOOLEAN : Truncate(k, p)
 Next == Write \/ Read \/ DoTruncate \/ Recal
 Spec == Init /\ [][Next]_vars
@@ -91,6 +104,6 @@ NoSilentTruncation == (phase = "read" /\ ~Intact) =>
       /\ \A p \in Cells : (p \notin res.invalid) => res.cells[p[1]][p[2]] = p
 
 Rec == [gen |-> gen, dxv |-> dxv, fmt |-> fmt, shape |-> shape, invalid |-> invalid, keep |-> keep, partial |-> partial, n |-> N,
-        missing |-> {body[t].cell : t \in (keep + 1)..N}, design |-> res.k]
+        missing |-> {body[t].cell : t \in (keep + 1)..N}, design |-> res.k, origin |-> origin, hdrac |-> hdrac, pre |-> pre]
 Emit == (EmitOn /\ phase = "read") => PrintT(<<"EMIT", ToJson(Rec)>>)
 =============================================================================
